@@ -1,0 +1,7 @@
+//go:build !verif
+
+package corebgp
+
+// verifPoint marks a schedule point for an external verification harness. It
+// is a no-op unless built with the `verif` tag.
+func verifPoint(string, any) {}
